@@ -15,6 +15,9 @@ def _pyval(v):
     return None
 
 
+_BEYOND = []   # filled by _in_domain: a float conversion with |v|*10^precision >= 2^53 was seen
+
+
 def _in_domain(fmt, vals):
     """Returns the Python argument tuple when CPython's `%` and Jsonnet's std.format are specified
     to agree on (fmt, vals); None otherwise.  Every exclusion is a documented difference of the
@@ -67,8 +70,8 @@ def _in_domain(fmt, vals):
                     return None
                 args.append(int(x))
         elif conv in "diuoxX":
-            if isinstance(x, str) or abs(x) >= 2.0 ** 63:
-                return None  # >= 2^63: known finding (saturation), handled by the Lean reference
+            if isinstance(x, str):
+                return None
             if conv == "o" and "#" in flags:
                 return None  # CPython writes 0o, Jsonnet/C write 0
             args.append(int(x))  # truncation toward zero = the Jsonnet rule for doubles
@@ -76,6 +79,8 @@ def _in_domain(fmt, vals):
             if isinstance(x, str):
                 return None
             pp = 6 if p is None else p
+            if pp > 308:
+                return None  # jrsonnet generates digits by scaling with 10^precision: above 308 an error
             fx = Fraction(x)
             if conv in "gG":
                 pp = max(pp, 1)
@@ -110,7 +115,9 @@ def _in_domain(fmt, vals):
             # Jsonnet's algorithm (|v|*10^p + 0.5 in double arithmetic, round half up) and CPython
             # (exact, round half even) agree away from ties and while |v|*10^p is exact in a double
             if scaled >= 2 ** 53:
-                return None
+                # beyond exact double arithmetic: CPython prints the exact expansion; a disagreement
+                # here is the finding c12_float_digits_inexact_beyond_2_53, not a new violation
+                _BEYOND.append(True)
             frac = scaled - (scaled.numerator // scaled.denominator)
             if abs(frac - Fraction(1, 2)) < Fraction(1, 10 ** 6):
                 return None
@@ -122,8 +129,11 @@ def _in_domain(fmt, vals):
 
 def extra(root, out_dir, tier, seed, findings, cov):
     """CPython's `%` as a second oracle on the part of the domain where both languages agree."""
+    import sys
+    sys.path.insert(0, os.path.join(root, "checks"))
+    import classifiers as CL
     d = os.path.join(out_dir, "c12")
-    res, n, skipped, pyerr, bad = [], 0, 0, 0, []
+    res, n, skipped, pyerr, bad, known, n_beyond = [], 0, 0, 0, [], {}, 0
     try:
         fin, fimp = open(os.path.join(d, "in.jsonl")), open(os.path.join(d, "impl.jsonl"))
     except OSError:
@@ -135,10 +145,12 @@ def extra(root, out_dir, tier, seed, findings, cov):
         fmt = op.get("_fmt")
         if fmt is None:
             continue
+        del _BEYOND[:]
         args = _in_domain(fmt, op["vals"])
         if args is None:
             skipped += 1
             continue
+        beyond = bool(_BEYOND)
         try:
             want = fmt % args
         except Exception:
@@ -147,6 +159,20 @@ def extra(root, out_dir, tier, seed, findings, cov):
         n += 1
         imp = json.loads(l2)
         got = "".join(chr(c) for c in imp["ok"]) if "ok" in imp else None
+        if beyond:
+            n_beyond += 1
+        if got != want and beyond:
+            imp2 = dict(imp, cpython=want, beyond_2_53=True)
+            hit = None
+            for f in findings:
+                if f.get("kind") == "finding" and f.get("property") == "C12":
+                    fn = getattr(CL, f["site"], None)
+                    if fn and fn(op, imp2, {}, f.get("args", {})):
+                        hit = f
+                        break
+            if hit:
+                known.setdefault(hit["site"], [hit, 0])[1] += 1
+                continue
         if got != want:
             bad.append((len(fmt) + len(args), {"fmt": fmt, "args": [repr(a) for a in args], "cpython": want,
                                                 "implementation": got if got is not None else imp, "via": op.get("via")}))
@@ -154,6 +180,10 @@ def extra(root, out_dir, tier, seed, findings, cov):
     cov["cpython_out_of_common_domain"] = skipped
     cov["cpython_raised"] = pyerr
     cov["cpython_disagreements"] = len(bad)
+    cov["cpython_compared_beyond_2_53"] = n_beyond
+    cov["cpython_known_finding_hits"] = {k: v[1] for k, v in known.items()}
+    for site, (f, k) in sorted(known.items()):
+        res.append(("known", None, f"KNOWN-FINDING: property=C12 {f['what']} [{site}; {k} case(s) this run, CPython oracle]"))
     if bad:
         bad.sort(key=lambda x: x[0])
         res.append(("violation", {"property": "C12", "kind": "cpython-disagrees",
@@ -164,15 +194,15 @@ def extra(root, out_dir, tier, seed, findings, cov):
 
 CFG = {
     "level": "proof",
-    "level_text": "Lean theorems about a model of format.rs prove, for all inputs: the integer conversions d i u o x X equal the reference printf text for every flag subset, width, precision and every number with |v| < 2^63 and never panic (int_conv_spec / int_conv_partial, with the >= 2^63 saturation kept as a proved counterexample + known finding); %s/%c/%% pad to the width in characters (pad_spec, percent_text, char_conv_partial); values are consumed strictly left to right, each code seeing exactly its own window (`*` width, `*` precision, value), %% consuming nothing, and success implies the value count is exact, so too few / too many values are errors (consumes_left_to_right, value_count_exact, too_few_is_error, too_many_is_error, percent_no_consume); text without % is copied unchanged (literal_copied, literal_elem_copied); object mode resolves %(key) incl. dotted paths, rejects `*` and key-less codes (obj_mode_spec); parsing never panics and fails only with truncated / unrecognised-conversion / width-too-large, the conversion character alone decides known vs unknown (parse_errors_only, conversion_char_spec); the conversion/flag/length-modifier tables re-extracted from format.rs on every run equal the reference tables (conv_table_spec, flag_table_spec). The model is tied to the code by an exhaustive differential run (flags 2^5 x widths x precisions x 15 conversions x values, every format string of length <= 4 over a 17-character alphabet, argument-mode tables, seeded random strings; 1 in 16 also through `%`, std.format and std.mod from source) against both the model and the independent reference, and the implementation is additionally compared with CPython's `%` operator on ~1.3e5 cases of the common domain.",
-    "level_note": "Trusted: Lean kernel; the hand model of format.rs (validated by the correspondence run only); the digit oracle: double -> decimal digit generation of %e/%f/%g (mul_add/floor/%/log10/powf) is recomputed by the harness and handed to model and reference (checked only against CPython away from ties and below 2^53); number -> text of %s is an input (C05). Which format strings are truncated is decided by the model parser; its agreement with the independently written reference grammar (FormatSpec.parseFmt) is checked by exhaustive enumeration (length <= 4) + random strings against the independently written reference parser, not by a Lean equivalence theorem.",
-    "technique": "Lean 4 proof (value threading, integer/padding arithmetic, table equality) + exhaustive differential correspondence + CPython as second oracle",
+    "level_text": "Lean theorems about a model of format.rs prove, for all inputs: PARSER — the model of parse_codes/parse_code/try_parse_* equals the independently written reference grammar on EVERY format string, successes and the three error classes alike (parse_spec, parse_code_spec), and parsing the rendering of any well-formed element list gives the list back field by field (parse_roundtrip, parse_code_roundtrip); parsing fails only with truncated / unrecognised-conversion / width-too-large and never panics (parse_errors_only, conversion_char_spec). INTEGER conversions d i u o x X equal the reference printf text for every flag subset, width, precision and EVERY finite double, no i64 bound (int_conv_spec, int_conv_full; the former saturation finding is repaired). FLOAT conversions e E f F g G: everything after digit generation — sign, #, zero padding inside render_float or applied afterwards for %g, width, trailing-zero stripping, two-digit signed exponent, fixed/exponent form selection with the extracted threshold — equals the reference text for every flag subset, width, precision <= 308 and all digit data (float_conv_spec); a float precision above 308 is the error tooLarge for every value (float_precision_limit; the former u16-overflow finding is repaired). %s/%c/%% pad to the width in characters; %c is the reference for every value incl. negative numbers (pad_spec, percent_text, char_conv_spec; former NUL finding repaired). Values are consumed strictly left to right, each code seeing exactly its own window, %% consuming nothing, success implies the value count is exact (consumes_left_to_right, value_count_exact, too_few_is_error, too_many_is_error, percent_no_consume); text without % is copied unchanged (literal_copied, literal_elem_copied); object mode resolves %(key) incl. dotted paths, rejects `*` and key-less codes (obj_mode_spec); the conversion/flag/length-modifier tables, default precisions, %g threshold, exponent padding and the float precision limit with its guard are re-extracted from format.rs on every run (conv_table_spec, flag_table_spec). The model is tied to the code by an exhaustive differential run (flags 2^5 x widths x precisions x 15 conversions x values; every format string of length <= 4 over a 17-character alphabet, whose parse is compared FIELD BY FIELD through the Debug text of the real Vec<Element>; integer conversions of 16 numbers beyond the i64 range up to f64::MAX x flags x widths/precisions; float precision limit; %c of negative/fractional/huge numbers; argument-mode tables; seeded random strings; 1 in 16 also through `%`, std.format and std.mod from source) against both the model and the independent reference, and the implementation is additionally compared with CPython's `%` operator on ~1.4e5 cases of the common domain.",
+    "level_note": "Trusted: Lean kernel; the hand model of format.rs (validated by the correspondence run only); the digit oracle: double -> decimal digit generation of %e/%f/%g (mul_add/floor/%/log10/powf) is recomputed by the harness and handed to model and reference; float_conv_spec holds for all digit data satisfying OracleOK (parts below 2^1024, fraction < 10^precision) but says nothing about whether the digits are the right ones — that is observed against CPython only (away from ties, |v|*10^p < 2^53), and beyond 2^53 the digits are known to be noise (finding c12_float_digits_inexact_beyond_2_53). An exact dyadic model of the pipeline was not built. render_integer's limb-wise long division (integer_digits) is modelled at the level of the exact integer (repeated % radix, / radix); the limb arithmetic itself is validated by the big-number correspondence cases only. Number -> text of %s is an input (C05).",
+    "technique": "Lean 4 proof (parser = reference grammar for all strings + round trip, value threading, integer/float padding arithmetic, table equality) + exhaustive differential correspondence incl. field-by-field parse comparison + CPython as second oracle",
     "engines": ["c12"],
     "assumptions": [
-        "reference = Python %-formatting as adopted by Jsonnet's std.format: %#o writes a leading 0 (not 0o), %s ignores precision, %% honours flags/width, doubles are truncated toward zero by integer conversions (also %x, where upstream std.jsonnet floors), parse errors precede value errors, %g counts significant digits of |v|<1 from the units digit, widths/precisions above 65535 are an error",
-        "digit generation of %e/%f/%g (the float pipeline) is an oracle input to model and reference; it is compared with CPython only where |v|*10^precision < 2^53, away from rounding ties and (for %g) for |v| >= 1 without carry",
+        "reference = Python %-formatting as adopted by Jsonnet's std.format: %#o writes a leading 0 (not 0o), %s ignores precision, %% honours flags/width, doubles are truncated toward zero by integer conversions (also %x, where upstream std.jsonnet floors), parse errors precede value errors, %g counts significant digits of |v|<1 from the units digit, widths/precisions above 65535 are an error, float precisions above 308 are an error (10^precision must be a finite double), %c of a number <= -1 is an invalid-code-point error",
+        "digit generation of %e/%f/%g (the float pipeline) is an oracle input to model and reference; it is compared with CPython only where |v|*10^precision < 2^53, away from rounding ties and (for %g) for |v| >= 1 without carry; where |v|*10^precision >= 2^53 CPython is compared too and a disagreement limited to digits after the 15th significant one is the listed finding",
         "the text of a non-string value under %s (Val::to_string) is an input",
-        "float precisions explored: <= 9 in the cross product, 0..7 and 65534/65535 elsewhere; precisions >= 19 (scaled fraction >= 2^63) fall under the saturation finding",
+        "float precisions explored: <= 9 in the cross product, 0..7 elsewhere, 308 with the value 0, 309/310/400/65535 for the error path; |v|*10^precision overflowing to infinity (\"%f\" % 1e308, \"%.308f\" % 3) is C04's finding c04_float_conversion_of_huge_number_debug_assert and is not explored here",
         "format strings are modelled as code-point lists (the parser only inspects and slices at ASCII bytes)",
     ],
     "timeout": 3000,
